@@ -71,3 +71,131 @@ def _omp(eng, st, args, kwargs, node):
 def _phylo_write(eng, st, args, kwargs, node):
 	st.ghosts['written'] = True
 	yield st, None
+
+
+@lib('__getitem__')
+def _dmat_getitem(eng, st, obj, idx, node, site):
+	"""dmat[i, :] of the abstract distance matrix: row i (in-bounds obligation on i)"""
+	if isinstance(obj, SObj) and obj.T.name == 'DMat' and isinstance(idx, tuple) and len(idx) == 2 and isinstance(idx[1], SSlice) \
+			and idx[1].start is None and idx[1].stop is None and idx[1].step is None:
+		from contracts.queryglue import rowof, nrows, TRow
+		i = int_term(idx[0])
+		eng.oblige(st, site, 'row-in-bounds', z3.And(i >= 0, i < nrows(obj.term)))
+		return iter([(st, SObj(TRow, rowof(obj.term, i)))])
+	from .core import _getitem_hook
+	return _getitem_hook(eng, st, obj, idx, node, site)
+
+
+@lib('factory:datetime.now')
+def _now(eng, st):
+	yield st, ExtObj('datetime')
+
+
+@lib('pure_len:Record')
+def _rec_len(pe, rec):
+	if rec.cls.endswith('SignatureList'):
+		return SInt(pe.deref(rec.fields['_list']).length)
+	raise Unsupported(f'len of {rec.cls} in specification')
+
+
+@lib('pure_index:Record')
+def _rec_index(pe, rec, idx):
+	if rec.cls.endswith('SignatureList'):
+		return pe.index(rec.fields['_list'], idx)
+	raise Unsupported(f'index of {rec.cls} in specification')
+
+
+@lib('builtins.zip')
+def _zip(eng, st, args, kwargs, node):
+	"""zip(a, b, strict=True): pairs in order; ValueError if the lengths differ"""
+	xs = [st.deref(a) for a in args]
+	strict = kwargs.get('strict', False)
+	if all(isinstance(x, (list, tuple)) for x in xs):
+		if strict and len(set(len(x) for x in xs)) > 1:
+			yield st, Raised('ValueError')
+		else:
+			yield st, ConcreteIter(list(zip(*xs)))
+		return
+	if not all(isinstance(x, (SSeq, SArr)) for x in xs):
+		raise Unsupported('zip over mixed concrete/symbolic sequences')
+	n = xs[0].length
+	same = z3.And(*[x.length == n for x in xs[1:]]) if len(xs) > 1 else z3.BoolVal(True)
+	if strict:
+		for s2, ok in eng.branch(st, same):
+			if ok:
+				yield s2, SZip(xs, n)
+			else:
+				yield s2, Raised('ValueError')
+	else:
+		m = n
+		for x in xs[1:]:
+			m = z3.If(x.length < m, x.length, m)
+		yield st, SZip(xs, m)
+
+
+
+@lib('gambit.util.misc.zip_strict')
+def _zip_strict(eng, st, args, kwargs, node):
+	"""gambit.util.misc.zip_strict on Python >= 3.10 is zip(*iterables, strict=True)"""
+	yield from _zip(eng, st, args, dict(kwargs, strict=True), node)
+
+
+@lib('str:SObj')
+def _str_sobj(eng, st, v, node):
+	if 'pathstr' in v.T.fields:
+		yield st, v.getattr('pathstr')
+		return
+	raise Unsupported(f'str({v!r})')
+
+
+# ---- pathlib / SequenceFile as opaque values (labels.py) ---------------------------------------------------------------
+
+@lib('pathlib.Path')
+def _path(eng, st, args, kwargs, node):
+	"""Path(s): str(Path(s)) = pnorm(s) (pathlib's normalisation, uninterpreted); Path(Path) is the same path"""
+	from contracts.labels import TPath, PNORM
+	v = args[0]
+	if isinstance(v, SObj) and v.T is TPath:
+		yield st, v
+		return
+	p = TPath.fresh('path')
+	st.assume(p.term != TPath.none)
+	st.assume(TPath.fields['pathstr'][0](p.term) == PNORM(to_term(v)))
+	yield st, p
+
+
+_prev_binop = LIB.get('__binop__')
+
+
+@lib('__binop__')
+def _path_div(eng, st, op, a, b, node):
+	import ast as _ast
+	from contracts.labels import TPath, PJOIN
+	if op is _ast.Div and isinstance(a, SObj) and a.T is TPath and isinstance(b, (SStr, str)):
+		p = TPath.fresh('joined')
+		st.assume(p.term != TPath.none)
+		st.assume(TPath.fields['pathstr'][0](p.term) == PJOIN(a.getattr('pathstr').term, to_term(b)))
+		return iter([(st, p)])
+	if _prev_binop is not None:
+		return _prev_binop(eng, st, op, a, b, node)
+	return None
+
+
+@lib('new:gambit.seq.SequenceFile')
+def _new_seqfile(eng, st, args, kwargs, node):
+	"""attrs class SequenceFile(path, format, compression=None) with converter Path on path"""
+	from contracts.labels import TPath
+	from .conc import TFile
+	names = ['path', 'format', 'compression']
+	vals = dict(zip(names, args))
+	vals.update(kwargs)
+	vals.setdefault('compression', None)
+	path = vals['path']
+	if not (isinstance(path, SObj) and path.T is TPath):
+		path = next(_path(eng, st, [path], {}, node))[1]
+	f = TFile.fresh('seqfile')
+	st.assume(f.term != TFile.none)
+	st.assume(TFile.fields['path'][0](f.term) == path.term)
+	st.assume(TFile.fields['format'][0](f.term) == to_term(vals['format']))
+	st.assume(TFile.fields['compression'][0](f.term) == TOpt(TStr).unwrap(vals['compression']))
+	yield st, f
